@@ -22,6 +22,40 @@ def handle (op : String) (j : Json) : Option (R Json) :=
       pure (okJ [("shape", ints #[S0, S1]), ("pixelscale", ratJ (pixelscale px s)),
                  ("y0", ratJ (c S0 sh[0]! 0)), ("x0", ratJ (c S1 sh[1]! 0)),
                  ("ylast", ratJ (c S0 sh[0]! (S0 - 1))), ("xlast", ratJ (c S1 sh[1]! (S1 - 1)))])
+  | "rs.coords" => some do
+      -- the whole interpolation grid of util.rescale, exact
+      let sh ← getInts j "shape"
+      let s ← ratOf j "scale"
+      let S0 := outShape Rat.ceil (fun k => (k : Rat)) sh[0]! s
+      let S1 := outShape Rat.ceil (fun k => (k : Rat)) sh[1]! s
+      let ys := (List.range S0.toNat).map fun (t : Nat) => ratJ (coord (fun k => (k : Rat)) 2 S0 sh[0]! s t)
+      let xs := (List.range S1.toNat).map fun (t : Nat) => ratJ (coord (fun k => (k : Rat)) 2 S1 sh[1]! s t)
+      pure (okJ [("shape", ints #[S0, S1]), ("y", Json.arr ys.toArray), ("x", Json.arr xs.toArray)])
+  | "rs.plane" => some do
+      -- Plane.rescale's own bookkeeping: per-axis pixel scale (or none), amplitude factor, which arrays are interpolated
+      let s ← ratOf j "scale"
+      let px : Option (Rat × Rat) ← match optVal j "px2" with
+        | some (Json.arr a) => do
+            let p0 ← a[0]!.getArr?; let p1 ← a[1]!.getArr?
+            pure (some (mkRat (← p0[0]!.getInt?) (← p0[1]!.getNat?), mkRat (← p1[0]!.getInt?) (← p1[1]!.getNat?)))
+        | _ => pure none
+      let an ← getNat j "amp_ndim"; let on ← getNat j "opd_ndim"
+      let pxo := match planePixelscale px s with
+        | none => Json.null
+        | some q => Json.arr #[ratJ q.1, ratJ q.2]
+      pure (okJ [("px", pxo), ("amp_factor", ratJ (amplitudeFactor an s)),
+                 ("amp_interp", Json.bool (interpolated an)), ("opd_interp", Json.bool (interpolated on))])
+  | "rs.resample_guard" => some do
+      let new ← ratOf j "new"
+      let px : Option (Rat × Rat) ← match optVal j "px2" with
+        | some (Json.arr a) => do
+            let p0 ← a[0]!.getArr?; let p1 ← a[1]!.getArr?
+            pure (some (mkRat (← p0[0]!.getInt?) (← p0[1]!.getNat?), mkRat (← p1[0]!.getInt?) (← p1[1]!.getNat?)))
+        | _ => pure none
+      match resample px new with
+      | .valueError => pure (errJ "ValueError")
+      | .notImplemented => pure (errJ "NotImplementedError")
+      | .scale sc => pure (okJ [("scale", ratJ sc)])
   | "rs.resample" => some do
       let px ← ratOf j "px"; let new ← ratOf j "new"
       pure (okJ [("scale", ratJ (resampleScale px new)), ("pixelscale", ratJ (pixelscale px (resampleScale px new)))])
